@@ -105,6 +105,17 @@ def laws_binwise_patchwise(L, tag, x, get_arr, rng, rebuild):
     ) else "iteration over bins differs")
     L.raises(f"{tag}.bins[out-of-range]", lambda: x.bins[nb])
 
+    def reiterate(sel, n):
+        first = len(list(sel))
+        second = len(list(sel))  # the same selector object again
+        it = iter(sel)
+        next(it, None)  # abandon an iteration early, then start over
+        third = len(list(sel))
+        return None if (first, second, third) == (n, n, n) else f"lengths of repeated iterations {(first, second, third)} != {n}"
+
+    L.check(f"{tag}.bins.iter-twice", lambda: reiterate(x.bins, nb))
+    L.check(f"{tag}.patches.iter-twice", lambda: reiterate(x.patches, npatch))
+
     ints, slices = index_sets(npatch, rng)
     for i in ints:
         sl = as_slice(i, npatch)
@@ -327,6 +338,8 @@ def laws_sampled(L, rng, nb):
             L.check(f"{tag}.bins[slice]", f)
         L.check(f"{tag}.bins.iter", lambda: None if len(lst := list(a.bins)) == nb and all(
             eq_arr(x.data, a.data[i:i + 1]) for i, x in enumerate(lst)) else "iteration differs")
+        sel = a.bins
+        L.check(f"{tag}.bins.iter-twice", lambda: None if (len(list(sel)), len(list(sel))) == (nb, nb) else "second iteration of the same selector differs")
         L.raises(f"{tag}.bins[out-of-range]", lambda: a.bins[nb])
         L.raises(f"{tag}.bad-shape", lambda: cls(a.binning, a.data[:-1] if nb > 1 else np.zeros(3), a.samples))
 
